@@ -21,16 +21,17 @@ STARTS = [("E12", False, 2, 3, 3), ("Type", False, 2, 3, 3), ("QueryStatement", 
           ("DML", True, 1, 2, 2), ("Call", False, 1, 2, 2), ("DDL", True, 2, 3, 2),
           ("FE_Arg", False, 1, 2, 2), ("FE_Mod", False, 1, 2, 1), ("FD_Col", False, 1, 2, 1), ("FD_Seq", False, 1, 2, 2), ("FD_Ident", False, 1, 2, 2), ("FD_PG", False, 1, 2, 2),
           ("FD_PGProps", False, 1, 2, 2), ("FD_CS", False, 1, 2, 2), ("FM_Return", False, 1, 2, 2)]
+DENSE = [("QueryStatement", False, 2, 1, 2), ("DML", True, 1, 1, 2), ("DDL", True, 1, 1, 2), ("E12", False, 1, 1, 2)]
 HEAVY = {"C04", "C05", "C06", "C16", "C17", "C19"}
 PROFILES = {"quick": 4, "thorough": 7}
 # C07: operator trees
 C07 = {"quick": dict(budget=3), "thorough": dict(budget=4)}
 
 
-def cfg_text(budget, start, free, out, wrap=False, opsonly=False, leafalts=True):
+def cfg_text(budget, start, free, out, wrap=False, opsonly=False, leafalts=True, dense=0):
     b = lambda x: "TRUE" if x else "FALSE"
-    return ("CONSTANTS\n  Budget = %d\n  StartNT = %s\n  StartFree = %s\n  OutFile = %s\n  WrapOps = %s\n  OpsOnly = %s\n  LeafAlts = %s\n"
-            "SPECIFICATION Spec\nINVARIANT Emit\nCHECK_DEADLOCK FALSE\n") % (budget, tla_string(start), b(free), tla_string(out), b(wrap), b(opsonly), b(leafalts))
+    return ("CONSTANTS\n  Budget = %d\n  StartNT = %s\n  StartFree = %s\n  OutFile = %s\n  WrapOps = %s\n  OpsOnly = %s\n  LeafAlts = %s\n  DenseDepth = %d\n"
+            "SPECIFICATION Spec\nINVARIANT Emit\nCHECK_DEADLOCK FALSE\n") % (budget, tla_string(start), b(free), tla_string(out), b(wrap), b(opsonly), b(leafalts), dense)
 
 
 def generate(chk, name, budget, start, free, wd, **kw):
@@ -62,6 +63,11 @@ def corpora(chk, prop, tier, wd):
                 continue
             b = bq if tier == "quick" else (bh if prop in HEAVY else bt)
             jobs.append(lambda start=start, free=free, b=b: generate(chk, start, b, start, free, wd))
+    if prop != "C07":
+        # dense derivations: (almost) all optional parts of a construct present at once
+        for (start, free, depth, bq, bt) in DENSE:
+            b = bq if tier == "quick" else bt
+            jobs.append(lambda start=start, free=free, b=b, depth=depth: generate(chk, "dense-" + start, b, start, free, wd, dense=depth))
     outs = common.parallel(jobs, 4)
     if tier == "thorough" and prop != "C07":
         # random deep derivations beyond the exhaustive budget (TLC -simulate on the same specification)
